@@ -372,6 +372,19 @@ def r15_9(prog: Program, rep: Report):
         return False
 
     ok = all(looks_at_origin(p) for p in rejected)
+    # ... and on those paths no signature is taken of the alias itself (inspect.signature(Stack[int]) is (*args, **kwargs)):
+    # where the fields are described by the constructor alone, it is the constructor of the origin class
+    sig_of_alias = []
+    for p in rejected:
+        atoms = T.derive_atoms(p.guards())
+        class_origin = lambda a: T.is_call_to(a, "inspect.isclass") and a[2] and T.is_call_to(a[2][0], "typing.get_origin") and a[2][0][2][:1] == (obj,)  # noqa: E731
+        # (known not to be a parameterised user generic: the class-origin test failed, alone or as a conjunct with "has parameters")
+        not_generic_alias = any((not val) and (class_origin(a) or (a[0] == "boolop" and a[1] == "and" and any(class_origin(y) for y in a[2]))) for a, val in atoms)
+        for tm in p.all_terms():
+            for x in T.walk(tm):
+                if T.is_call_to(x, f"{C.INSP}.signature", f"{C.INSP}.cached_signature", "inspect.signature") and x[2][:1] == (obj,) and not not_generic_alias:
+                    sig_of_alias.append(T.show(x)[:50])
+    rep.check(not sig_of_alias, "R15.9", gh.qualname, gh.loc, "where typing.get_type_hints rejected the object, no signature is taken of it unless its origin is known not to be a class", f"when the origin class has no class-level annotations the wrapper falls back to {sorted(set(sig_of_alias))[:1]} of the *alias*, which is (*args, **kwargs): `class Stack(Generic[T])` with an annotated __init__ works bare, but Stack[int] knows no field -- the marshaller returns {{}} and the unmarshaller raises TypeError (missing argument)", detail="alias-signature")
     rep.check(ok, "R15.9", gh.qualname, gh.loc, f"on the {len(rejected)} path(s) where typing.get_type_hints rejects the object, the alias's origin is consulted", "when typing.get_type_hints rejects the object (a parameterised user generic such as Box[int] is an alias, not a class) the wrapper goes straight to the signature, which for an alias is (*args, **kwargs): the routine knows no field and unmarshal(Box[int], {'value': 1}) raises TypeError: __init__() missing 1 required positional argument", detail="alias-hints")
 
 
@@ -395,6 +408,17 @@ def alias_substitution(prog: Program, rep: Report, rule: str):
         rep.held(rule, gh.qualname, gh.loc, "no member hint is re-subscripted with substituted arguments", detail="alias-substitution", nontrivial=False)
         return
     why = None
+    # a member that is a bare generic *class* (`raw: Box`) also has __parameters__, but it is not waiting for arguments: on the
+    # path of every re-subscription the member is known not to be a class
+    for p in ps:
+        here = [x for tm in p.all_terms() for x in T.walk(tm) if x in sites]
+        if not here:
+            continue
+        atoms = T.derive_atoms(p.guards())
+        for x in dict.fromkeys(here):
+            h = x[1]
+            if not any((not val) and T.is_call_to(a, "inspect.isclass") and a[2][:1] == (h,) for a, val in atoms) and not any(val and T.is_call_to(a, f"{C.INSP}.issubscriptedgeneric", "typing.get_origin") and a[2][:1] == (h,) for a, val in atoms):
+                why = "a member annotated with a bare generic class (`raw: Box` inside `Holder(Generic[T])`) is re-subscripted with the alias's arguments because the class, too, has __parameters__: Holder[int] converts raw.v to int, input that Holder and Box pass through is rejected or silently re-typed"
     for x in sites:
         h, idx = x[1], x[2]
         c = [c for c in T.walk(idx) if c[0] == "comp" and T.contains(c, is_zip)][0]
@@ -413,9 +437,29 @@ def alias_substitution(prog: Program, rep: Report, rule: str):
     rep.check(why is None, rule, gh.qualname, gh.loc, f"{len(sites)} re-subscription(s): arguments follow the member's own parameter order through the parameter->argument map", why or "", detail="alias-substitution")
 
 
+def classvar_no_field(prog: Program, rep: Report, rule: str):
+    """A ClassVar annotation declares no field.  The wrapper consults the constructor's signature when the class-level hints
+    give no field; that test must discount ClassVar hints, or a lone `registry: ClassVar[dict]` switches the constructor off
+    as the source of a plain class's fields."""
+    gh = prog.function(f"{C.INSP}.get_type_hints")
+    fallback = []
+    for p in P.paths_of(prog, gh):
+        calls = [x for tm in p.all_terms() for x in T.walk(tm) if x[0] == "call" and x[1][0] == "ref" and x[1][1].startswith(C.INSP) and T.contains(("tuple", x[2]), lambda y: y == ("param", gh.params[0])) and any(T.is_call_to(c2, f"{C.INSP}.signature", f"{C.INSP}.cached_signature", "inspect.signature") for q in P.paths_of(prog, prog.functions[x[1][1]]) for tm2 in q.all_terms() for c2 in T.walk(tm2)) if x[1][1] in prog.functions and x[1][1] != gh.qualname]
+        if calls:
+            fallback.append(p)
+    if not fallback:
+        rep.undecided(rule, gh.qualname, gh.loc, "no path consults the signature for hints", detail="classvar-no-field")
+        return
+    knows = lambda g: T.contains(g, lambda y: T.is_call_to(y, f"{C.INSP}.isclassvartype") or (y[0] == "ref" and y[1] in ("typing.ClassVar", "typing_extensions.ClassVar")))  # noqa: E731
+    ok = all(any(knows(g) for g, _ in p.guards()) for p in fallback)
+    rep.check(ok, rule, gh.qualname, gh.loc, f"the signature fallback ({len(fallback)} path(s)) is decided on the hints that are no class variables", "the constructor's signature is consulted only when there is no class-level hint at all: a lone `registry: ClassVar[dict] = {}` on a plain class whose fields come from an annotated __init__(self, a: str, b: int) leaves the routine without any field -- marshal gives {}, unmarshal(V, V('1', 2)) raises TypeError (missing 'a')", detail="classvar-no-field")
+
+
 def run(prog: Program, rep: Report, tier: str):
     rep.rule("R15.9", "hints of a parameterised user generic come from its origin class", floor=1)
     r15_9(prog, rep)
+    rep.rule("R15.11", "a ClassVar annotation does not switch the constructor off as the source of fields", floor=1)
+    classvar_no_field(prog, rep, "R15.11")
     rep.rule("R15.10", "substituted arguments of a generic member follow the member's own parameter order", floor=1)
     alias_substitution(prog, rep, "R15.10")
     rep.rule("R15.8", "helper call cycles on the same object are cut by a flag fixed on re-entry", floor=1)
